@@ -103,6 +103,11 @@ class World(SessionWorld):
         if err is not None or self.session._session_id != 77001:
             raise SetupViolation("session-did-not-join-on-WELCOME", repr(err)[:200])
         self.ops_left = 3 + ch.choose(12, "nops")
+        if ch.flag("router-assigns-small-ids", 0.25):
+            # registration / subscription / publication ids from the same small range as the session's request ids:
+            # different number spaces, equal numbers mean nothing
+            self.next_router_id = ch.choose(5, "first-router-id")
+            self.cfg["small_ids"] = True
         if ch.flag("registers-a-decorated-object-first", 0.2):
             self.register_object()
         # the application maps an error URI to an exception class of its own; whether a given ERROR fits its constructor
